@@ -3321,9 +3321,10 @@ func (db *DatabaseCollectionWithUser) correctVersionAheadOfCAS(ctx context.Conte
 
 // restampVersionCAS re-persists the document's _sync and _vv xattrs so the server assigns a fresh CAS,
 // leaving the current version (cv.ver) unchanged while macro-expanding _sync.cas and _vv.cvCas to the new
-// CAS. It is a metadata-only update guarded on the supplied CAS: the revision, sequence and body are
-// untouched, so no new revision is created (the resulting mutation is ignored by the changes feed, which
-// is correct as the version is not changing).
+// CAS (and _sync.value_crc32c to the hash of the stored body, as the original write did). It is a
+// metadata-only update guarded on the supplied CAS: the revision, sequence and body are untouched,
+// so no new revision is created (the resulting mutation is ignored by the changes feed, which is correct
+// as the version is not changing).
 func (db *DatabaseCollectionWithUser) restampVersionCAS(ctx context.Context, key string, doc *Document, cas uint64) (uint64, error) {
 	_, syncXattr, vvXattr, _, _, err := doc.MarshalWithXattrs()
 	if err != nil {
@@ -3339,6 +3340,10 @@ func (db *DatabaseCollectionWithUser) restampVersionCAS(ctx context.Context, key
 	opts := &sgbucket.MutateInOptions{
 		MacroExpansion: []sgbucket.MacroExpansionSpec{
 			sgbucket.NewMacroExpansionSpec(xattrCasPath(base.SyncXattrName), sgbucket.MacroCas),
+			// _sync.value_crc32c is only ever populated by macro expansion, so the in-memory value marshalled above
+			// is that of the previous body (or empty). Re-expand it, otherwise the re-stamp leaves a stale body hash
+			// behind and a later CAS-only mutation (resync, touch) makes this SG write look like an SDK write.
+			sgbucket.NewMacroExpansionSpec(xattrCrc32cPath(base.SyncXattrName), sgbucket.MacroCrc32c),
 			sgbucket.NewMacroExpansionSpec(xattrCurrentVersionCASPath(base.VvXattrName), sgbucket.MacroCas),
 			sgbucket.NewMacroExpansionSpec(XattrMouCasPath(), sgbucket.MacroCas),
 		},
